@@ -212,24 +212,49 @@ end
 /-- the candidate plans for materialising `n`: the inputs of all nodes tagged `n`, in traversal order -/
 def cands (all : List (String × BQ)) (n : String) : List BQ := (all.filter (fun p => p.1 == n)).map (·.2)
 
+/-- number of output columns of a CTE-free plan (`tw` = widths of the catalog's tables) -/
+def widthOf (tw : List Nat) : Query → Nat
+  | .scan t => tw.getD t 0
+  | .cteRef _ => 0
+  | .values rows => (rows.headD []).length
+  | .filter _ _ q => widthOf tw q
+  | .project _ es _ => es.length
+  | .join jt lw rw _ _ _ _ => match jt with | .semi | .anti => lw | _ => lw + rw
+  | .agg keys aggs _ => keys.length + aggs.length
+  | .groupingSets keys _ aggs _ => keys.length + aggs.length + 1
+  | .distinct q => widthOf tw q
+  | .sort _ q => widthOf tw q
+  | .limit _ _ q => widthOf tw q
+  | .setop _ _ l _ => widthOf tw l
+  | .window calls q => widthOf tw q + calls.length
+  | .withCte _ body => widthOf tw body
+
+/-- A consumer bound to a definition of `k` columns reads the materialisation `c` (of `w` columns) BY COLUMN NAME.  Where the
+    cached definition spells its first columns like the expected one (the shadow statements of the generator, A.16) that is
+    the prefix of `k` columns; a narrower materialisation makes the statement fail ("column not found"), as does this plan. -/
+def trimTo (k w : Nat) (c : BQ) : BQ :=
+  if w = k then c else .node (.project [] ((List.range k).map .col) (.scan 0)) [c]
+
 mutual
 /-- every node tagged with a name that occurs at least twice reads the one materialisation of that name -/
-def cacheSub (all : List (String × BQ)) (pick : String → Nat) : BQ → BQ
+def cacheSub (tw : List Nat) (all : List (String × BQ)) (pick : String → Nat) : BQ → BQ
   | .alias n x =>
-    if (cands all n).length ≥ 2 then .alias n (((cands all n)[pick n]?).getD x)
-    else .alias n (cacheSub all pick x)
-  | .node sk kids => .node sk (cacheSubL all pick kids)
-def cacheSubL (all : List (String × BQ)) (pick : String → Nat) : List BQ → List BQ
+    if (cands all n).length ≥ 2 then
+      let c := ((cands all n)[pick n]?).getD x
+      .alias n (trimTo (widthOf tw x.erase) (widthOf tw c.erase) c)
+    else .alias n (cacheSub tw all pick x)
+  | .node sk kids => .node sk (cacheSubL tw all pick kids)
+def cacheSubL (tw : List Nat) (all : List (String × BQ)) (pick : String → Nat) : List BQ → List BQ
   | [] => []
-  | b :: bs => cacheSub all pick b :: cacheSubL all pick bs
+  | b :: bs => cacheSub tw all pick b :: cacheSubL tw all pick bs
 end
 
-def cacheE (dev : Dev) (pick : String → Nat) (b : BQ) : BQ :=
-  if dev.cacheByName then cacheSub b.aliases pick b else b
+def cacheE (dev : Dev) (tw : List Nat) (pick : String → Nat) (b : BQ) : BQ :=
+  if dev.cacheByName then cacheSub tw b.aliases pick b else b
 
-/-- the CTE-free plan the engine executes for the statement -/
-def enginePlan (dev : Dev) (pick : String → Nat) (nq : NQ) : Query :=
-  (cacheE dev pick (bindE dev nq []).1).erase
+/-- the CTE-free plan the engine executes for the statement (`tw` = widths of the catalog's tables) -/
+def enginePlan (dev : Dev) (tw : List Nat) (pick : String → Nat) (nq : NQ) : Query :=
+  (cacheE dev tw pick (bindE dev nq []).1).erase
 
 /-- the statement with every reference replaced by its lexically visible definition -/
 def inlinedPlan (nq : NQ) : Query := (bindL [] nq).erase
